@@ -235,8 +235,8 @@ def parse_sexagesimal(s):
     secs = float(sec + ("." + frac if frac else ""))
     val = int(d) + int(mi) / 60.0 + secs / 3600.0
     half = 0.5 * 10.0 ** (-len(frac or "")) / 3600.0
-    if int(mi) >= 60 or secs >= 60.0:
-        return ("range", half)
+    # a field that rounds up to 60 ("-19:59:60.00") still denotes the right angle; that every printed field stays
+    # below 60 is property C17's clause, not C03's, so it is not flagged here
     return (-val if sign == "-" else val, half)
 
 
@@ -285,7 +285,7 @@ def row_invariants(sources):
                     return [("error-value", "%s (flags %d): %s = %r is neither positive and finite nor exactly -1" % (who, fl, e, v))]
         pr = parse_sexagesimal(s.ra_str)
         pd = parse_sexagesimal(s.dec_str)
-        if pr is None or pd is None or pr[0] == "range" or pd[0] == "range":
+        if pr is None or pd is None:
             return [("coord-string", "%s: malformed coordinate strings %r %r" % (who, s.ra_str, s.dec_str))]
         dra = abs(pr[0] * 15.0 - s.ra)
         dra = min(dra, 360.0 - dra)
